@@ -30,6 +30,8 @@ func init() {
 }
 
 func runC01(r *Run) {
+	genesisSupplyRules(r) // the supply recorded at genesis equals the balances created at genesis
+	descendantHashBinding(r)
 	contextProvenanceRules(r) // balances are checked against the block's previous, not the frontier
 	acceptancePathRules(r)
 	const impl = "vm/embedded/implementation."
